@@ -44,7 +44,7 @@ let process (toks : string list) : string =
   | ["HKO"; v; key; salt; info; n] ->
     (match x_hkdf (hv v) (bytes_of_hex key) (bytes_of_hex salt) (bytes_of_hex info) (nat n) with None -> "ERR" | Some o -> hex_of_bytes o)
   | ["HKSPEC"; v; key; salt; info; n] ->
-    let okm = x_spec_hkdf_okm (hv v) (bytes_of_hex salt) (bytes_of_hex key) (bytes_of_hex info) in
+    let okm = x_spec_hkdf_okm (hv v) (bytes_of_hex salt) (bytes_of_hex key) (bytes_of_hex info) (nat_of_int ((int_of_string n + 31) / 32)) in
     let rec take n l = if n = 0 then [] else match l with [] -> [] | x :: t -> x :: take (n - 1) t in
     hex_of_bytes (take (int_of_string n) okm)
   | ["PB"; "xof"; pw; salt; c; n] -> hex_of_bytes (x_pbkdf2 (bytes_of_hex pw) (bytes_of_hex salt) (nat c) (nat n))
